@@ -278,6 +278,35 @@ fn experiments(out: &mut Out, dir: &std::path::Path, runs: u64, pools: &[usize])
             let _ = std::fs::remove_dir_all(&folder);
         }
     }
+    // an experiment in which one run fails (its set-up returns an error): the configuration record is written before the
+    // runs start, so it is there (and is the record of this configuration) although the experiment ends with an error
+    let (cname, config) = &configs[0];
+    for &k in pools {
+        let folder = dir.join(format!("exp-{}-{k}-failing", std::process::id()));
+        let pool = rayon::ThreadPoolBuilder::new().num_threads(k).build().unwrap();
+        let res: Result<ExecResult<()>, String> = caught(|| {
+            pool.install(|| {
+                par_experiment(
+                    config,
+                    |state| {
+                        if state.borrow::<Random>().config().seed == 1 {
+                            return Err(eyre::eyre!("set-up of run 1 fails"));
+                        }
+                        log_setup(state, false)
+                    },
+                    &problems,
+                    runs.max(2),
+                    &folder,
+                    true,
+                )
+            })
+        });
+        let failed_as_expected = matches!(res, Ok(Err(_)));
+        id += 1;
+        out.emit(&json!({"run": id, "ev": "exp", "key": format!("{cname}/configuration.ron"), "pool": k, "rn": 0,
+                         "ok": failed_as_expected as i64, "digest": fnv(&file_digest(&folder.join("configuration.ron")))}));
+        let _ = std::fs::remove_dir_all(&folder);
+    }
 }
 
 fn canonical(v: &ciborium::value::Value) -> String {
